@@ -121,10 +121,11 @@ def rust_defs(types, for_oracle):
     for t in types:
         if t["kind"] == "struct":
             fields = [(ident, ty, [a for a in attrs if for_oracle is False or not a.startswith("#[validate")]) for (ident, label, attrs, ty) in t["items"]]
-            out.append(rg.struct_src(t["name"], fields, rename_all=t["rename_all"], attrs=["#[allow(non_snake_case)]"]))
+            out.append(rg.struct_src(t["name"], fields, rename_all=t["rename_all"], attrs=["#[allow(non_snake_case)]"],
+                                     derive_style=rg.DERIVE_STYLES[hash(t["name"]) % len(rg.DERIVE_STYLES)] if False else rg.DERIVE_STYLES[int(t["name"][1:]) % len(rg.DERIVE_STYLES)]))
         else:
             out.append(rg.enum_src(t["name"], [(ident, attrs) for (ident, label, attrs, _) in t["items"]], rename_all=t["rename_all"],
-                                   attrs=["#[allow(non_camel_case_types)]"]))
+                                   attrs=["#[allow(non_camel_case_types)]"], derive_style=rg.DERIVE_STYLES[int(t["name"][1:]) % len(rg.DERIVE_STYLES)]))
     return "".join(out)
 
 
